@@ -386,6 +386,10 @@ def shard(ctx):
                     ("Resources.*.Tags !exists", "exists", True, False), ("not Resources.*.Tags empty", "empty", True, False), ("Resources.*.Tags empty", "empty", False, False),
                     ("Resources.*.Name is_int", "is_int", False, False)]
         utext = "let t = Resources.*.Tags\n" + "".join("rule u%d {\n    %s <<um%d>>\n}\n" % (i, c[0], i) for i, c in enumerate(uclauses))
+        # failing rules that also hold a block over an EMPTY selection (SKIP, no child records): the block is no failed check
+        utext += ("let none = some Resources.*.Nope\nlet emptyf = Resources.*[ Name == \"nobody\" ]\n"
+                  "rule g0 {\n    Resources.a.Name == \"never\" <<gm0>>\n    %none {\n        Name exists <<gm1>>\n    }\n}\n"
+                  "rule g1 {\n    Resources.a.Name == \"never\" <<gm2>>\n    %emptyf {\n        Name exists <<gm3>>\n    }\n    Resources.*[ Name == \"nobody\" ] {\n        Name exists <<gm4>>\n    }\n}\n")
         umap_ = {"um%d" % i: [c[1], c[2], c[3], False] for i, c in enumerate(uclauses)}
         rv = ctx.w.run({"k": "rc", "data": ud, "rules": utext, "verbose": True})
         rn = ctx.w.run({"k": "rc", "data": ud, "rules": utext, "verbose": False})
